@@ -313,6 +313,103 @@ def _api(ctx, spec, rng):
                       f"get_plain_apdu accepted a frame although {name} differs from what was secured")
 
 
+# ---------------------------------------------------------------------------
+# key rotation: same XKNX object, file based secure configuration, stop(), the .knxkeys file replaced by an export with
+# rotated group keys, start(): frames secured with the OLD key are "a different key" from then on
+
+def _rotation_case(ctx, spec):
+    import os
+    import shutil
+    import tempfile
+
+    from vlib.ds_harness import KEYRING_PASSWORD, InterfaceSession, make_project, sync_keyring_loading, write_project_keyring
+    from xknx.dpt import DPTArray
+    from xknx.io import SecureConfig
+    from xknx.telegram.apci import GroupValueWrite
+
+    import random
+
+    r = random.Random(spec["seed"])
+    gas = spec["gas"]
+    senders = spec["senders"]
+    generations = [{g: bytes.fromhex(k) for g, k in zip(gas, ks)} for ks in spec["keys"]]
+    tmp = tempfile.mkdtemp(prefix="dsec-c16-", dir="/dev/shm" if os.path.isdir("/dev/shm") else None)
+    path = os.path.join(tmp, "project.knxkeys")
+    state = {"tag": 0, "counter": 10}
+    frames = []  # (tag, phase, key generation, timing)
+
+    def frame(phase, generation, timing):
+        state["tag"] += 1
+        state["counter"] += 1
+        ga, sa = r.choice(gas), r.choice(senders)
+        payload = GroupValueWrite(DPTArray((0xA5, state["tag"] & 0xFF, state["tag"] >> 8)))
+        raw = Node({ga: generations[generation][ga]}, {}, own_address=sa, last_seq_sending=state["counter"]).secure_sync(
+            Telegram(destination_address=GroupAddress(ga), payload=payload))
+        frames.append((state["tag"], phase, generation, timing))
+        return raw
+
+    try:
+        with sync_keyring_loading():
+            write_project_keyring(make_project(generations[0], {a: 0 for a in senders}), r, path)
+            s = InterfaceSession(spec["transport"], SecureConfig(knxkeys_file_path=path, knxkeys_password=KEYRING_PASSWORD))
+
+            async def main():
+                for phase in range(len(generations)):
+                    if phase:
+                        await s.xknx.stop()
+                        write_project_keyring(make_project(generations[phase], {a: 0 for a in senders}), r, path)
+                        ctx.count("restarts_with_rotated_key_file")
+                    older = list(range(phase))
+                    s.burst = [frame(phase, phase, "with-connect-response")] + [frame(phase, g, "with-connect-response") for g in older]
+                    s.right_after = [frame(phase, g, "right-after-connect-response") for g in older] + [frame(phase, phase, "right-after-connect-response")]
+                    await s.xknx.start()
+                    for g in older + [phase]:
+                        s.push(frame(phase, g, "later"), delay=0.02)
+                    await s.settle(0.5)
+                await s.xknx.stop()
+
+            try:
+                s.run(main())
+            except Exception as exc:  # noqa: BLE001
+                ctx.inconclusive(f"rotation case did not finish: {type(exc).__name__}: {exc}")
+                return
+            finally:
+                s.close()
+    finally:
+        shutil.rmtree(tmp, ignore_errors=True)
+    ctx.count("rotation_cases")
+    tags = []
+    for t in s.telegrams:
+        try:
+            v = t.payload.value.value
+            tags.append(v[1] | (v[2] << 8) if v[0] == 0xA5 else None)
+        except Exception:  # noqa: BLE001
+            tags.append(None)
+    for tag, phase, generation, timing in frames:
+        ctx.ev()
+        n = tags.count(tag)
+        ctx.distinct(("rotation", spec["transport"], phase, generation == phase, timing, n))
+        wit = {"spec": spec, "phase": phase, "frame_secured_with_key_generation": generation, "timing": timing, "delivered": n}
+        if generation == phase:
+            if n == 1:
+                ctx.count("rotation_current_key_delivered")
+            else:
+                ctx.count("rotation_control_failed")
+                ctx.inconclusive(f"control failed: frame secured with the configured key (phase {phase}, {timing}) delivered {n} times")
+        elif n:
+            ctx.violation("frame-secured-with-replaced-key-delivered-after-restart", wit,
+                          f"{spec['transport']}: after the restart with a rotated-key keyring a frame secured with the old key ({timing}) was delivered")
+        else:
+            ctx.count("rotation_old_key_rejected")
+            ctx.count(f"rotation_old_key_rejected_{timing}")
+
+
+def _rotation_spec(rng, i):
+    gas = rng.sample(range(1, 0x10000), rng.choice((1, 2)))
+    return {"transport": ("tcp", "udp")[i % 2], "gas": gas, "senders": rng.sample(range(0x100, 0xFFFF), 2),
+            "keys": [[rng.randbytes(16).hex() for _ in gas] for _ in range(2 + (i % 3 == 2))], "seed": rng.randrange(1 << 30)}
+
+
 def _spec(rng, alg, kind, length):
     payload = group_payload(rng, length)
     if length >= 2 and rng.random() < 0.5:
@@ -347,6 +444,13 @@ def run(ctx):
                 "rejected_destination", "rejected_tpci", "rejected_address_type", "rejected_extended_frame_format",
                 "api_rejected_address_type", "api_rejected_extended_frame_format", "api_rejected_tpci")
     nframes = ctx.scale(44, 4800)
+    ctx.require("rotation_cases", "restarts_with_rotated_key_file", "rotation_current_key_delivered", "rotation_old_key_rejected_with-connect-response",
+                "rotation_old_key_rejected_later")
+    for i in range(ctx.scale(8, 320)):
+        spec = _rotation_spec(rng, i)
+        if ctx.mine(i):
+            with observing_management():
+                _rotation_case(ctx, spec)
     with observing_management():
         for i in range(nframes):
             alg = ("enc", "auth")[i % 2]
@@ -367,6 +471,12 @@ def run(ctx):
 
 def replay(ctx, witness):
     spec = witness["spec"]
+    if "gas" in spec:
+        with observing_management():
+            _rotation_case(ctx, spec)
+        ctx.distinct("replay")
+        ctx.distinct("replay2")
+        return
     with observing_management():
         variant = witness.get("variant")
         if variant and variant[0] == "wrongkey":
